@@ -16,6 +16,19 @@ CHECKS = {
   note='Trusted: Python threading/fcntl semantics as modelled (Condition.wait releases and re-acquires; lock '
        'operations and Counter item access do not raise); Windows branch not analysed.',
   ref='DESIGN.md §2 C15'),
+ 'C16': dict(
+  technique='CFG dominance / reachability rules for the PENDING marker protocol, who-may-construct and '
+            'wrapper-sibling agreement, publish-after-write ordering, atomic-rewrite, lockset of shared files, '
+            'taint of free text into CSV/line records',
+  text='Static rules K1-K8 over the model database and the run context: every path through transaction()/'
+       'snapshot() respects the marker protocol (all crash points between file operations are covered by the '
+       'ordering rules because they quantify over CFG prefixes), index entries are published after the content '
+       'they promise, shared files are never truncated in place and are accessed under the matching lock, free '
+       'text is quoted, record selection is exact. Necessary conditions only: fidelity of the retrieved model '
+       'content is not decided.',
+  note='Trusted: file operations are recognised by method name (touch/mkdir/unlink/write_csv/to_json/...); '
+       'os.replace is atomic; pandas CSV semantics for quoted fields.',
+  ref='DESIGN.md §2 C16'),
 }
 NA = {}
 
